@@ -34,6 +34,9 @@ P_FAIL = [
     ["eval", "edit", "fail", "eval", "unfail", "eval"],
     ["fail", "eval2", "unfail", "eval2"],
     ["fail", "eval", "eval", "unfail", "eval"],
+    # another pipeline evaluated in the same process after the failure
+    ["fail", "eval", "evalB", "unfail", "eval"],
+    ["evalB", "fail", "eval", "evalB"],
 ]
 P_STAGES = [
     ["evalS", "eval2", "eval2"],
@@ -68,6 +71,10 @@ def std_variants(tier: str, noop: bool) -> List[Dict[str, Any]]:
     v.append(cv)
     # dds and the callee modules imported by statements inside the function bodies
     v.append(_v("local", "local", ["split"], "local", 0.12))
+    # tracked variables whose names shadow builtins (max, format, input, ...)
+    bv = _v("local", "local+lru", ["one", "split"], "from", 0.2)
+    bv["var_names"] = "builtin"
+    v.append(bv)
     # script placement: the whole pipeline in one file executed as __main__
     sv = _v("local", "local", ["one"], "from", 0.2)
     sv["script"] = True
@@ -153,7 +160,7 @@ FAMILY: Dict[str, Dict[str, Any]] = {
         rule="history over a shape with dds.load (placement x producer kind x producer timing); non-trivial when a later "
              "evaluation executes a reader or must be rejected"),
     "C10": dict(
-        shapes=lambda tier: shp.core_shapes() + shp.load_shapes()[:2], plans=lambda tier: P_FAIL,
+        shapes=lambda tier: shp.core_shapes() + shp.load_shapes()[:2] + shp.tworoot_shapes(), plans=lambda tier: P_FAIL,
         variants=small_variants, oracle=oracles.c10, protocol=True,
         fail_classes=lambda tier: ["Exception", "KeyboardInterrupt"] + (["SystemExit", "ValueError"] if tier == "thorough" else []),
         nontrivial=lambda hist: any(r["op"] == "eval" and isinstance(r["err"], list) and r["err"][:1] == ["raise"] for r in hist),
@@ -290,6 +297,10 @@ def run_family(prop: str, tier: str) -> int:
                 s2.real["as_class"] = shp.class_candidates(s2)
             if v.get("script"):
                 s2.real["main_script"] = True
+            if v.get("var_names"):
+                s2.real["var_names"] = v["var_names"]
+            if prop != "C01":
+                s2.real["plain_refs"] = True
             byname[s.name] = s2
         items = [(byname[h["shape"]], h["hist"]) for h in hs]
         if vi == 0:
@@ -313,6 +324,8 @@ def run_family(prop: str, tier: str) -> int:
             realisation += ",notebook-cells"
         if v.get("script"):
             realisation += ",__main__-script"
+        if v.get("var_names"):
+            realisation += ",variables-named-like-" + v["var_names"] + "s"
         if v.get("pristine"):
             realisation += ",pristine-hashseed=%s" % v["pristine"].get("hashseed")
         if v.get("accept"):
